@@ -124,7 +124,7 @@ fn c49_tokens_of_account_outside_window_refused() {
     let outside = !within(ct, e.valid_from, e.expire);
     let uat = UserAuthToken { session_id: Uuid(kani::any::<u8>() % 3), issued_at: any_odt(), expiry: any_opt_odt(), uuid: Uuid(kani::any()) };
     let r1 = Account::check_user_auth_token_valid(ct, &uat, &e);
-    let apit = ProtoApiToken { account_id: Uuid(0), token_id: Uuid(kani::any::<u8>() % 3), issued_at: any_odt(), expiry: None };
+    let apit = ProtoApiToken { account_id: Uuid(0), token_id: Uuid(kani::any::<u8>() % 3), issued_at: any_odt(), expiry: any_opt_odt() };
     let r2 = ServiceAccount::check_api_token_valid(ct, &apit, &e);
     if outside {
         check!(!r1, "C49: a login token of an account outside its validity window is refused");
@@ -185,7 +185,7 @@ fn c32_login_token_needs_live_session() {
 fn c32_api_token_needs_session() {
     let ct = any_ct();
     let e = entry_with(false, true, false);
-    let apit = ProtoApiToken { account_id: Uuid(0), token_id: Uuid(kani::any::<u8>() % 3), issued_at: any_odt(), expiry: None };
+    let apit = ProtoApiToken { account_id: Uuid(0), token_id: Uuid(kani::any::<u8>() % 3), issued_at: any_odt(), expiry: any_opt_odt() };
     let r = ServiceAccount::check_api_token_valid(ct, &apit, &e);
     let inwin = within(ct, e.valid_from, e.expire);
     let present = e.api_sessions.as_ref().map(|m| m.get(&apit.token_id).is_some()).unwrap_or(false);
